@@ -23,6 +23,7 @@ for d in seeded/*/; do
   [ -f "$d/patch.diff" ] || continue
   prop=$(basename "$d" | cut -d- -f1); name=$(basename "$d")
   [ -n "$filter" ] && [ "$prop" != "$filter" ] && continue
+  if grep -q '"expect": "missed"' "$d/meta.json" 2>/dev/null; then echo "skipped  $prop $name: documented miss (outside the decided part)"; continue; fi
   D=$(mktemp -d /tmp/selftest.XXXXXX); cp -r /repo/. "$D/"
   if ! (cd "$D" && patch -p1 -s < "/verif/$d/patch.diff" >/dev/null 2>&1); then echo "STALE    $prop $name: patch does not apply"; fail=1; rm -rf "$D"; continue; fi
   run_one "$prop" "$name" "$D"; n=$((n+1)); rm -rf "$D"
